@@ -256,12 +256,12 @@ def cases(tier, shard, nshards):
     # ---- B: configured through the language
     labels = ["f", "g", "h"]
     maxb = 3 if tier == "quick" else 4
-    for pa in itertools.product([1, 2, 3], repeat=3):
+    for pa in itertools.product([1, 2, 3, NAN], repeat=3):
         for mode in ("assign", "swap", "tuple"):
             if not mine():
                 continue
             pre = ['%s := \\a, b -> ["%s", a, b]' % (l, l) for l in labels]
-            pre += ["%s::precedence = %d" % (l, p) for l, p in zip(labels, pa)]
+            pre += ["%s::precedence = %s" % (l, "0.0 / 0.0" if p == NAN else "%d" % p) for l, p in zip(labels, pa)]
             held = {l: (l, p) for l, p in zip(labels, pa)}     # variable -> (label it builds, precedence)
             if mode == "swap":
                 pre.append("swap f, g")
@@ -465,10 +465,10 @@ def judge_A(case, rs):
     names = ["f%d" % (i + 1) for i in range(n)]
     vals = [10 + i for i in range(n + 1)]
     has_nan = any(c[0] == NAN for c in cfg)
-    want = None
-    if not has_nan:
-        t = group([(p, a, names[i]) for i, (p, a) in enumerate(cfg)])
-        want = tree_canon(t, names, vals)
+    # a NaN precedence is compared like a tie (the property's anchor for Precedence::tighter_than_when_before says so, and so does
+    # the code: partial_cmp -> None is handled with Equal): the left operator's associativity decides
+    t = group([(p, a, names[i]) for i, (p, a) in enumerate(cfg)])
+    want = tree_canon(t, names, vals)
     wantlog = ["l", []]
     for i in range(n + 1):
         if i:
